@@ -154,6 +154,8 @@ def gen_plan(rng, tier, i, seed):
     prior = route in ("roundtrip", "options", "options_explicit") and rng.random() < 0.5
     return {"w": gen_world(seed, i % cfg["worlds"], exome=(route == "exome")), "route": route,
             "settings": settings, "options": options, "prior": prior, "empty_options": empty_options,
+            # the gene structure is supplied by the user as well (--cn): the profile file's options must count all the same
+            "with_cn": route in ("options", "options_explicit", "exome") and rng.random() < 0.3,
             "exome_name": rng.choice(["exome", "wxs", "wes"]), "exome_cli": rng.random() < 0.5,
             "extra_pos": rng.choice(["first", "first", "middle", "last"]),
             "extra": extra, "dashes": rng.random() < (0.6 if route in ("cli", "profile_cli", "dump") else 0.3),
@@ -179,7 +181,7 @@ def execute(plan, runner, rundir):
               "extra": plan["extra"], "dashes": plan["dashes"], "prior": plan.get("prior", False),
               "exome_name": plan.get("exome_name"), "exome_cli": plan.get("exome_cli"),
               "extra_pos": plan.get("extra_pos"), "vcf_cli": plan.get("vcf_cli"),
-              "empty_options": plan.get("empty_options")}
+              "empty_options": plan.get("empty_options"), "with_cn": plan.get("with_cn")}
     res = {}
     if plan["route"] in ("roundtrip", "dump", "options", "options_explicit", "profile_cli"):
         res["write"] = runner.segment(dict(common, kind="write", hashseed=plan["write_hashseed"]))
@@ -231,7 +233,8 @@ def _judge_profile_cli(plan, outcome, env, malformed):
 def judge(plan, outcome):
     vs = []
     rd = outcome["read"]
-    env = {"route": plan["route"], "extra": plan["extra"], "earlier_version_loaded": bool(plan.get("prior"))}
+    env = {"route": plan["route"], "extra": plan["extra"], "earlier_version_loaded": bool(plan.get("prior")),
+           "structure_supplied_by_user": bool(plan.get("with_cn"))}
     exp = expected_table(plan)
     malformed = plan["extra"] and plan["extra"][0] == "malformed"
     if plan["route"] == "profile_cli":
@@ -533,7 +536,8 @@ def run_segment(seg):
             p = Profile.load(gene, os.path.join(rd, "w", "written.yml"), None)
             res["observed"] = _profile_attrs(p)
         elif route in ("options", "options_explicit"):
-            rec = O.run_genotype(db, bam, os.path.join(rd, "opts.yml"), None, params=params)
+            rec = O.run_genotype(db, bam, os.path.join(rd, "opts.yml"), None, params=params,
+                                 cn_solution=["1", "1"] if seg.get("with_cn") else None)
             rec.pop("_raw", None)
             if rec["exc"] and not SIM.stage_calls:
                 if rec["exc"].get("aldy"):
